@@ -407,3 +407,78 @@ Proof.
   destruct (Z.leb_spec x left); destruct (Z.leb_spec right x);
     repeat split; intros; try discriminate; try lia; auto.
 Qed.
+
+(* ---------------------------------------------------------------- whole frames
+   [ftag] is the opaque payload of a frame: it stands for EVERY attribute of the System
+   object other than order[0] and vel_rev (config, order[1:], pos, vel, ekin, vpot, box,
+   temperature, attributes attached later ...).  The statements below spell out what the
+   [erase]-based theorems above say about it, field by field and frame by frame. *)
+
+Lemma copy_frame_whole o f : same_frame (copy_frame o f) f /\ foid (copy_frame o f) = o.
+Proof. unfold same_frame. cbn. auto. Qed.
+
+Lemma erase_same l1 : forall l2, map erase l1 = map erase l2 -> Forall2 same_frame l1 l2.
+Proof.
+  induction l1 as [|a r IH]; intros [|b s] H; cbn in H; try discriminate; constructor.
+  - unfold erase in H. injection H as Ho Ht Hr _. unfold same_frame. auto.
+  - apply IH. now injection H.
+Qed.
+
+Lemma erase_ford l : map ford l = map (fun e : Z * Z * bool => fst (fst e)) (map erase l).
+Proof. rewrite map_map. apply map_ext. reflexivity. Qed.
+Lemma erase_ftag l : map ftag l = map (fun e : Z * Z * bool => snd (fst e)) (map erase l).
+Proof. rewrite map_map. apply map_ext. reflexivity. Qed.
+Lemma erase_frev l : map frev l = map (fun e : Z * Z * bool => snd e) (map erase l).
+Proof. rewrite map_map. apply map_ext. reflexivity. Qed.
+
+(* a single reverse: frame order reversed, velocity flag flipped iff asked, and nothing
+   else — order parameter and payload of every frame are kept *)
+Theorem reverse_only_flag next p rv :
+  (plen p <= maxlen p)%nat ->
+  map ford (pts (reverse next p rv)) = rev (map ford (pts p)) /\
+  map ftag (pts (reverse next p rv)) = rev (map ftag (pts p)) /\
+  map frev (pts (reverse next p rv)) = rev (map (fun f => xorb rv (frev f)) (pts p)).
+Proof.
+  intros H. pose proof (reverse_frames next p rv H) as E.
+  rewrite (erase_ford (pts (reverse next p rv))), (erase_ftag (pts (reverse next p rv))),
+          (erase_frev (pts (reverse next p rv))), E.
+  destruct rv; rewrite <- ?map_rev, ?map_map; repeat split; apply map_ext;
+    intros f; unfold erase, eflip; cbn; try reflexivity.
+  now destruct (frev f).
+Qed.
+
+Theorem reverse_twice_whole n1 n2 p rv :
+  (plen p <= maxlen p)%nat ->
+  Forall2 same_frame (pts (reverse n2 (reverse n1 p rv) rv)) (pts p).
+Proof. intros H. apply erase_same. now apply reverse_involutive. Qed.
+
+Theorem copy_whole next p :
+  (plen p <= maxlen p)%nat -> Forall2 same_frame (pts (copy next p)) (pts p).
+Proof. intros H. apply erase_same. now apply copy_frames_same. Qed.
+
+Lemma nth_error_firstn_some {A} (l : list A) : forall n k x,
+  nth_error (firstn n l) k = Some x -> nth_error l k = Some x.
+Proof.
+  induction l as [|a r IH]; intros [|n] [|k] x H; cbn in *; try discriminate; auto.
+  now apply IH in H.
+Qed.
+
+(* paste allocates nothing and rewrites nothing: frame k of the result IS (all fields and
+   the object identity) frame k of the reversed backward segment followed by the forward one *)
+Theorem paste_keeps_frames back forw ov m k x :
+  nth_error (pts (paste back forw ov (Some m))) k = Some x ->
+  nth_error (rev (pts back) ++ forw_part forw ov) k = Some x.
+Proof. rewrite paste_pts. apply nth_error_firstn_some. Qed.
+
+(* self += other keeps its own frames (same objects) and appends whole copies *)
+Theorem iadd_whole next p other :
+  exists added,
+    pts (iadd next p other) = pts p ++ added /\
+    Forall2 same_frame added (firstn (maxlen p - plen p) (pts other)) /\
+    forall x, In x added -> (next <= foid x)%nat.
+Proof.
+  unfold iadd. rewrite append_all_pts.
+  exists (firstn (maxlen p - plen p) (copy_frames next (pts other))). split; [reflexivity|]. split.
+  - apply erase_same. rewrite <- !firstn_map, erase_copy_frames. reflexivity.
+  - intros x Hx. apply firstn_In in Hx. now apply copy_frames_oid in Hx.
+Qed.
